@@ -65,14 +65,15 @@ def gen(tape, big=False):
                 continue
             p = free[tape.draw("program", len(free), "prefix")]
             used_p.add(p)
-            ops.append(["add_prefix", p, tape.chance("program", 1, 2, "consume"), tape.chance("program", 1, 2, "startstop")])
+            ops.append(["add_prefix", p, tape.chance("program", 1, 2, "consume"), tape.chance("program", 1, 2, "startstop"),
+                        tape.draw("program", 5, "reuse-sink")])     # 0 = a sink of its own, k = share the k-th sink already there
         elif k == "add_id":
             free = [i for i in IDS if i not in used_i]
             if not free:
                 continue
             i = free[tape.draw("program", len(free), "id")]
             used_i.add(i)
-            ops.append(["add_id", i, tape.chance("program", 1, 2, "startstop")])
+            ops.append(["add_id", i, tape.chance("program", 1, 2, "startstop"), tape.draw("program", 5, "reuse-sink")])
         elif k == "run":
             if in_run:
                 ops.append(["stop"])
@@ -103,7 +104,10 @@ def run_one(tape, opts):
     out = Outcome()
     fallback, fb_ss, ops = gen(tape, big=opts.get("tier") == "thorough")
     world = World()
+    falsy_sinks = tape.chance("config", 1, 6, "falsy-sinks")
     fb = TStream(world, "fallback") if fallback else None
+    if fb is not None:
+        fb._falsy = falsy_sinks
     router = StreamResultRouter(fb, do_start_stop_run=fb_ss)
     sinks = {}
     # model state
@@ -116,9 +120,19 @@ def run_one(tape, opts):
 
     def sink(name):
         s = TStream(world, name)
+        s._falsy = falsy_sinks      # a sink may be falsy (an empty sized collector): it is a sink all the same
         sinks[name] = s
         expect[name] = []
         return s
+
+    def pick(name, reuse):
+        """A sink of its own, or (reuse = k) the k-th shareable sink already known to the router."""
+        shareable = (["fallback"] if fallback else []) + [n for n in sinks if n.startswith(("prefix:", "id:"))]
+        if reuse and reuse <= len(shareable):
+            n = shareable[reuse - 1]
+            out.probe("sink-serves-two-rules")
+            return n, (fb if n == "fallback" else sinks[n])
+        return name, sink(name)
 
     pending_children = {}   # parent sink name -> (when, child name, prefix, consume, registered for start/stop)
     either = {}             # child added while the router was stopping its sinks: name -> index into expect[name]
@@ -139,20 +153,22 @@ def run_one(tape, opts):
     for op in ops:
         try:
             if op[0] == "add_prefix":
-                _, p, consume, ss = op
-                name = f"prefix:{p}"
-                router.add_rule(sink(name), "route_code_prefix", route_prefix=p, consume_route=consume, do_start_stop_run=ss)
+                _, p, consume, ss, reuse = op
+                name, snk = pick(f"prefix:{p}", reuse)
+                router.add_rule(snk, "route_code_prefix", route_prefix=p, consume_route=consume, do_start_stop_run=ss)
                 prefix_rules[p] = (name, consume)
-                if ss:
+                # (a sink that serves two rules, or the fallback doubling as a rule's sink, is still one sink:
+                # started and stopped once per run)
+                if ss and name not in startstop:
                     startstop.append(name)
                     if in_run:
                         expect[name].append(("startTestRun",))
             elif op[0] == "add_id":
-                _, i, ss = op
-                name = f"id:{i}"
-                router.add_rule(sink(name), "test_id", test_id=i, do_start_stop_run=ss)
+                _, i, ss, reuse = op
+                name, snk = pick(f"id:{i}", reuse)
+                router.add_rule(snk, "test_id", test_id=i, do_start_stop_run=ss)
                 id_rules[i] = name
-                if ss:
+                if ss and name not in startstop:
                     startstop.append(name)
                     if in_run:
                         expect[name].append(("startTestRun",))
